@@ -27,24 +27,32 @@ def violates(run, case, impl, model):
     return False
 
 
-LEVEL_TEXT = ("Proof (all T1 theorems at history level; the stretch theorem delivery_order, T2, is NOT proved and is covered by the "
-              "differential run only): proved for ALL histories of the machine of rpc.Conn -- for every answer id the Returns in "
-              "the outbox never exceed the Bootstrap/Call messages accepted with it, and while the connection is up they are "
-              "equal except for the at most one answer that still owes its Return (C06_one_return, by a balance invariant "
-              "through every handler); the Return sent when a local server returns carries that outcome (C06_return_is_targets); "
-              "every Bootstrap/Call sent with a question id is matched by a Finish for it except the current use, and newQuestion "
-              "hands out only ids whose slot is empty, so an id is never re-issued before its Finish is in the outbox "
-              "(C06_question_ids, C06_new_question_is_free); every local call resolves exactly once: at every point of every "
-              "history, through shutdown, a call number that was handed out has exactly one of {a resolution in the outbox, an "
-              "unfinished question, a running direct delivery, a place behind an embargo}, so it is never resolved twice, never "
-              "lost, and after shutdown no question holds a call (C06_call_resolves_once, C06_shut_calls_resolved); no handler "
-              "panics or blocks, in particular a Call pipelined on an unreturned answer (F14 refuted on the pre-fix machine). "
-              "delivery_order is modelled (drain, eff_parent, wake_calls) and compared by the differential run (scenarios + "
-              "valid stream + window histories in which a second event arrives inside a handler: a Return overtaking a pipelined "
-              "Call, a pipelined call arriving during an answer-queue drain): Returns, ids, Disembargo, order seen by the "
-              "instrumented servers, results seen by local callers, table occupancy; plus fault histories (stream x: a transport write "
-              "fails, e.g. the Finish of a canceled call) judged by wire-level invariants only: no crash / wedge / leak and no question "
-              "id reused while the peer still holds it as an unfinished answer (oracle REUSE, also active on the valid stream). "
-              "Found and repaired: F14, F23, F27.")
-LEVEL_NOTE = ("delivery_order (T2, stretch) is not proved: differential run only. question_ids first half is stated for a connection that is up. "
-              "See coq/Props/Properties_C06.v for the full statements.")
+LEVEL_TEXT = ("Proof of the id / exactly-once half of the property for the machine of rpc.Conn (coq/Rpc/Rpc.v), at history level; NOT "
+              "proved: delivery_order (T2: order, pipelining across resolution, embargo -- differential run only) and, as a "
+              "separate theorem, no_sender_leak (see LEVEL_NOTE). Proved for ALL histories of the machine: for every answer id the "
+              "Returns in the outbox never exceed the Bootstrap/Call messages accepted with it, and while the connection is up "
+              "they are equal except for the at most one answer that still owes its Return (C06_one_return); the step in which a "
+              "local server returns sends a Return of the matching KIND (results / exception) with that answer's id "
+              "(C06_return_is_targets, single step from a live state, reachable: C06_return_reached; the CONTENT of results is "
+              "not in the machine beyond the capability descriptors); a Return resolves the local call of its question in the "
+              "same step with class 'results' only if it is a results Return, 'error' otherwise (C06_return_resolves_kind); "
+              "every Bootstrap/Call sent with a question id is matched by a Finish for it except the current use, and "
+              "newQuestion hands out only ids whose slot is empty (C06_question_ids, C06_new_question_is_free); every local call "
+              "resolves exactly once -- a safety statement: at every point of every history a call number that was handed out has "
+              "exactly one of {a resolution in the outbox, an unfinished question, a running direct delivery, a place behind an "
+              "embargo}, and after shutdown no question holds a call (C06_call_resolves_once, C06_shut_calls_resolved); no step "
+              "of the machine panics or blocks (C06_answers_progress), in particular after a Call pipelined on an unreturned "
+              "answer (C06_F14_refuted: the as-found machine wedges there). These are statements about rpc.Conn as far as the "
+              "machine follows it: checked by the differential run (scenarios, valid stream, window histories with a second event "
+              "inside a handler, fault histories with the wire oracle REUSE), and knowingly false for histories in which the "
+              "peer answers a question whose Call is still being built (not late_free: C06_late_return_history, known finding "
+              "'heldret'; no protocol-conforming peer can do that). Found and repaired: F14, F23, F27.")
+LEVEL_NOTE = ("Gaps, plainly: (1) delivery_order [T2] has no theorem. (2) no_sender_leak [T1] has no theorem of its own: the machine has "
+              "no sender-lock component; the only place where the as-found code kept the lock is modelled by a hand-placed Stuck "
+              "(Rpc.v, handle_call, fx14), excluded for all histories by C06_answers_progress / C08_handlers_total and refuted on one "
+              "history (C06_F14_refuted); that the real code's API exits hold no lock is C09_api_exits_hold_nothing. (3) Result content "
+              "is not modelled (OReturnRes: id + descriptors; LAppRes: outcome class). (4) The theorems quantify over all histories of "
+              "the MACHINE; machine and rpc.Conn differ on histories that are not late_free (a Return for a held, unsent question: "
+              "rpc.Conn still writes the Call with the freed id). (5) question_ids first half is stated for a connection that is up; "
+              "'exactly once' is safety, not liveness. (6) Inbound Disembargo with a senderLoopback context always aborts in the machine "
+              "(answers hold local capabilities only), rpc.Conn can succeed for import results: Disembargo towards this vat is out of scope.")
